@@ -79,3 +79,4 @@ pub mod rt;
 pub mod c17;
 pub mod c18;
 pub mod c19;
+pub mod c06;
